@@ -286,6 +286,7 @@ var integer32 = []*instructionType{
 	}, {
 		name:         "slli",
 		opcode:       opcodeShiftImm(false, 5, 0b001, 0b0010011),
+		shamtBits:    5,
 		inputRegCnt:  1,
 		hasOutputReg: true,
 		effects: func(i instruction) []expr.Effect {
@@ -295,6 +296,7 @@ var integer32 = []*instructionType{
 	}, {
 		name:         "srli",
 		opcode:       opcodeShiftImm(false, 5, 0b101, 0b0010011),
+		shamtBits:    5,
 		inputRegCnt:  1,
 		hasOutputReg: true,
 		effects: func(i instruction) []expr.Effect {
@@ -304,6 +306,7 @@ var integer32 = []*instructionType{
 	}, {
 		name:         "srai",
 		opcode:       opcodeShiftImm(true, 5, 0b101, 0b0010011),
+		shamtBits:    5,
 		inputRegCnt:  1,
 		hasOutputReg: true,
 		effects: func(i instruction) []expr.Effect {
@@ -506,6 +509,7 @@ var integer32 = []*instructionType{
 		},
 	}, {
 		name:         "csrrwi",
+		zimm:         true,
 		opcode:       opcode10(0b101, 0b1110011),
 		inputRegCnt:  0,
 		hasOutputReg: true,
@@ -520,6 +524,7 @@ var integer32 = []*instructionType{
 		},
 	}, {
 		name:         "csrrsi",
+		zimm:         true,
 		opcode:       opcode10(0b110, 0b1110011),
 		inputRegCnt:  0,
 		hasOutputReg: true,
@@ -536,6 +541,7 @@ var integer32 = []*instructionType{
 		},
 	}, {
 		name:         "csrrci",
+		zimm:         true,
 		opcode:       opcode10(0b111, 0b1110011),
 		inputRegCnt:  0,
 		hasOutputReg: true,
